@@ -744,6 +744,9 @@ func (k *checker) judgeCase(w *world, cs caseSpec) (refInfo, bool) {
 	if hist != "fresh-boot" {
 		key += ":" + hist
 	}
+	if len(cs.Trail) > 0 { // replay of a recorded history-dependent case
+		key += ":history-dependent"
+	}
 	if !k.firstOf("violation " + key) {
 		r.Add("violating_rows_beyond_first_per_key", 1)
 		return ri, true
@@ -808,7 +811,7 @@ func requestLine(cs caseSpec) string {
 
 func (k *checker) runConfig(spec cfgSpec, slot int) {
 	r := k.r
-	thorough := r.Thorough()
+	thorough := r.Thorough() && !spec.Lean
 	w := newWorld(spec, slot, filepath.Join(runner.Scratch(), fmt.Sprintf("w%d", slot)))
 	defer func() {
 		w.shutdown()
@@ -1109,7 +1112,7 @@ func TestCheck(t *testing.T) {
 	r.Set("lenient_case_status_codes", lenient)
 	r.Set("admin_without_tokens", adminOpen)
 	r.Set("configs_behavioural", len(bootable))
-	r.Set("reload_pairs_rule", "(A -> B): boot A through startServers, reload B through reloadConfig, run the complete table of the configuration in force. base = the 18 compiling configurations of global{-,g1,g1+g2} x routeA{-,a1} x routeB{-,b1} x admin{-,t1}. quick: all ordered pairs of base that differ in exactly one list (74); thorough: all 324 ordered pairs of base (identical reload included); both tiers: reload from the all-old-tokens configuration (every list replaced) to each of the 18. Restart-required direction: for every ordered pair of different deployments (split/prefix/shared) boot A (quick: 2, thorough: all 18 of base), reload inverse(A) (every list differs) in the other deployment: the tree must reject it and A's table must be fully in force, B's tokens worthless")
+	r.Set("reload_pairs_rule", "(A -> B): boot A through startServers, reload B through reloadConfig, run the complete table of the configuration in force. base = the 18 compiling configurations of global{-,g1,g1+g2} x routeA{-,a1} x routeB{-,b1} x admin{-,t1}. quick: all ordered pairs of base that differ in exactly one list (74); thorough: all 324 ordered pairs of base (identical reload included; the 250 pairs that are not in quick run the quick-size table); both tiers: reload from the all-old-tokens configuration (every list replaced) to each of the 18. Restart-required direction: for every ordered pair of different deployments (split/prefix/shared) boot A (quick: 2, thorough: all 18 of base, the 16 additional ones with the quick-size table), reload inverse(A) (every list differs) in the other deployment: the tree must reject it and A's table must be fully in force, B's tokens worthless")
 	r.Set("rule", "nested loops, nothing sampled: token configuration (global × route A × route B × admin lists [× alphabet × deployment × token source in thorough], each compiled from DSL text and booted through the production startServers) × how it came into force (fresh boot | reload from another configuration applied | reload rejected, see reload_pairs_rule) × history on the authorizer (none | right after a harmless request with a valid token to the same endpoint; deny rows of fresh-boot and reload-from-old worlds; thorough: every member of the allowlist as the valid token) × surface (Pull HTTP handler, Worker gRPC server over the in-memory listener, Admin HTTP handler) × endpoint spelling × operation/method × credential column (derived from every member of the effective allowlist plus every other token of the alphabet). Each row runs on the seeded store (queued/leased/dead/canceled message per route, lease ids known) and is compared with the reference allowlist rule; the full state dump (all message fields, stats, config file, management labels) must be identical after an unauthorised row. distinct = (surface, operation/method, credential class, reference verdict, strict/lenient spelling); trivial rows (compile-only) are keyed separately.")
 	r.Assume("docs define the credential as 'Authorization: Bearer <token>' only; scheme spelled in another case, extra blanks around scheme/token and several Authorization values are undefined: either outcome is accepted when at least one value carries a member of the effective allowlist (observed: HTTP authorizers look at the first value and want the exact scheme, the gRPC authorizer accepts any value and any scheme case) — recorded in undefined_by_docs_outcomes; when no value carries a member the row is a plain deny row")
 	r.Assume("401/Unauthenticated is demanded for the canonical spelling of a configured endpoint+operation (Pull: POST {endpoint}/{dequeue,ack,nack,extend}; Admin: the path×method pairs of docs/admin-api.md). For endpoints no route declares, deviating path spellings, unknown operations and non-listed methods only 'no effect, no data, no success answer' is demanded (the tree answers 401, 404 or 405 there; see lenient_case_status_codes)")
